@@ -282,20 +282,21 @@ def check(ctx, case, raw, failures, closed, escaped):
             except UnicodeDecodeError:
                 non_utf8 = True
         seek_failed = any(f[0] in ("OSError", "ValueError", "OverflowError") for f in failures)
-        if long_suffix and seek_failed and ((status == 500 and cr and cr[0].startswith(b"bytes -")) or len(specs) != 1):
+        if status == 500 and none_sat and cr == [b"bytes */%d" % size]:
+            # the 416 had been prepared (its Content-Range is still on the 500): twisted, too, found no satisfiable range
+            key = "multirange-none-satisfiable-500"
+            what = "several (or zero) range specs, none satisfiable: 416 is prepared, then the producer fails and 500 is sent"
+        elif (len(specs) > 1 and len(refrange.resolve(specs, size)) > 1
+              and any(f[0] == "ValueError" and "read length must be non-negative" in f[1] for f in failures)):
+            key = "multirange-separator-overruns-buffer"
+            what = ("multi-range producer: a part separator pushes the batch past bufferSize, the next read length is negative "
+                    "-> ValueError under the cooperator; the response is never written or stops midway")
+        elif long_suffix and seek_failed and ((status == 500 and cr and cr[0].startswith(b"bytes -")) or len(specs) != 1):
             # single range: the 500 still carries the negative Content-Range; several ranges: the seek to the
             # negative offset fails in start() (500) or later under the cooperator (nothing written, or a
             # 206 that stops before that part)
             key = "suffix-range-longer-than-file"
             what = "suffix range longer than the file gives a negative offset: 500 (inside a multi-range request also: no or a truncated response)"
-        elif (len(specs) > 1 and not long_suffix and len(refrange.resolve(specs, size)) > 1
-              and any(f[0] == "ValueError" and "read length must be non-negative" in f[1] for f in failures)):
-            key = "multirange-separator-overruns-buffer"
-            what = ("multi-range producer: a part separator pushes the batch past bufferSize, the next read length is negative "
-                    "-> ValueError under the cooperator; the response is never written or stops midway")
-        elif status == 500 and none_sat and cr == [b"bytes */%d" % size] and not long_suffix:
-            key = "multirange-none-satisfiable-500"
-            what = "several (or zero) range specs, none satisfiable: 416 is prepared, then the producer fails and 500 is sent"
         elif status == 500 and non_utf8 and any(f[0] == "UnicodeDecodeError" for f in failures) and klass in ("malformed", "invalid", "other-unit", "lenient"):
             key = "malformed-range-non-utf8-500"
             what = "a malformed Range value that is not UTF-8 makes the 'ignoring malformed header' log call raise: 500 instead of 200"
